@@ -183,6 +183,12 @@ def load_documents() -> List[Tuple[str, str]]:
     variant("dangling-unit-ref", "</DATA-OBJECT-PROP>", '<UNIT-REF ID-REF="no.such.unit"/></DATA-OBJECT-PROP>')
     variant("unknown-param-type", 'xsi:type="VALUE"', 'xsi:type="FANCY"')
     variant("unknown-coded-type", 'xsi:type="STANDARD-LENGTH-TYPE"', 'xsi:type="FANCY-LENGTH-TYPE"')
+    import re
+    m = re.search(r'<DOP-REF ID-REF="([^"]+)"', good)
+    if m is None:
+        raise RuntimeError("generator no longer emits <DOP-REF ID-REF=...>")
+    variant("unknown-doctype", m.group(0), m.group(0) + ' DOCREF="c_ldl" DOCTYPE="DIAG-CONTAINER"')
+    variant("unknown-docref", m.group(0), m.group(0) + ' DOCREF="no_such_doc" DOCTYPE="CONTAINER"')
     return docs
 
 
